@@ -165,39 +165,75 @@ def loci_case(case, ctx):
             require(len(outs) == 1 + (1 if n_sig else 0) + (1 if n_in else 0), "extract-n-outputs", lambda: "%s: %d outputs" % (tag, len(outs)))
             X = outs[0]
             nk = X.shape[0]
-            # walk the expected rows; each must / may / must-not be present, in order
-            k = 0
-            kept = []
-            for r in exp_rows:
-                if case.get("n_loci") is not None and len(kept) == case["n_loci"]:
-                    break
-                if r["status"] == "cross":
-                    continue
-                if n_sig and not _passes(r, sig[0], case):
-                    continue
+            # The rows returned must be explainable, in order, by the interleaved loci: a locus strictly inside MUST be present, a
+            # touching one MAY be, a crossing / filtered one must not.  Rows can coincide by chance (in_window = 1 ...), so this is
+            # decided by a memoised search over "optional row present / absent", not greedily.
+            cands = [r for r in exp_rows if r["status"] != "cross" and not (n_sig and not _passes(r, sig[0], case))]
+            cap = case.get("n_loci")
+
+            def expected(r):
                 w_in = r["wins"][0]
-                want = gen.encode(chroms[r["chrom"]][w_in[0]:w_in[1]].upper(), "ACGT", torch.int8)
-                present = k < nk and tuple(X[k].shape) == tuple(want.shape) and torch.equal(X[k].to(torch.int8), want)
-                if present and n_sig:
+                e = [gen.encode(chroms[r["chrom"]][w_in[0]:w_in[1]].upper(), "ACGT", torch.int8)]
+                if n_sig:
                     w_out = r["wins"][1]
-                    ws = torch.tensor(numpy.stack([sig[j][r["chrom"]][w_out[0]:w_out[1]] for j in range(n_sig)]))
-                    present = tuple(outs[1][k].shape) == tuple(ws.shape) and torch.equal(outs[1][k].to(torch.float32), ws)
-                if present:
-                    kept.append(r)
-                    k += 1
-                elif r["status"] == "inside":
-                    got = None if k >= nk else gen.decode(X[k].to(torch.int8), "ACGT")
-                    raise Violation("extract-row-wrong-or-missing", "%s: row %d should be locus %s mid %d window %s (in=%d out=%d jitter=%d): got %r want %r" % (
-                        tag, k, r["chrom"], r["mid"], r["wins"], in_w, out_w, jit, None if got is None else got[:30],
-                        chroms[r["chrom"]][w_in[0]:w_in[1]].upper()[:30]))
-            require(k == nk, "extract-extra-rows", lambda: "%s: %d rows returned, %d explained by the loci (in order)" % (tag, nk, k))
-            # in_signals
-            if n_in:
-                T = outs[-1]
-                for k2, r in enumerate(kept):
-                    w_in = r["wins"][0]
-                    ws = torch.tensor(numpy.stack([sig[n_sig + j][r["chrom"]][w_in[0]:w_in[1]] for j in range(n_in)]))
-                    require(tuple(T[k2].shape) == tuple(ws.shape) and torch.equal(T[k2].to(torch.float32), ws), "extract-in-signal-wrong", lambda: "%s row %d" % (tag, k2))
+                    e.append(torch.tensor(numpy.stack([sig[j][r["chrom"]][w_out[0]:w_out[1]] for j in range(n_sig)])))
+                if n_in:
+                    e.append(torch.tensor(numpy.stack([sig[n_sig + j][r["chrom"]][w_in[0]:w_in[1]] for j in range(n_in)])))
+                return e
+
+            exps = [expected(r) for r in cands]
+
+            def matches(i, k):
+                if k >= nk:
+                    return False
+                for o, e in zip(outs, exps[i]):
+                    if tuple(o[k].shape) != tuple(e.shape) or not torch.equal(o[k].to(e.dtype), e):
+                        return False
+                return True
+
+            memo = {}
+
+            def solve(i, k):
+                key = (i, k)
+                if key in memo:
+                    return memo[key]
+                if cap is not None and k == cap:
+                    res = [] if k == nk else None
+                elif i == len(cands):
+                    res = [] if k == nk else None
+                else:
+                    res = None
+                    if matches(i, k):
+                        sub_ = solve(i + 1, k + 1)
+                        if sub_ is not None:
+                            res = [i] + sub_
+                    if res is None and cands[i]["status"] != "inside":
+                        res = solve(i + 1, k)
+                memo[key] = res
+                return res
+
+            import sys as _sys
+            _sys.setrecursionlimit(max(_sys.getrecursionlimit(), 5000))
+            sol = solve(0, 0)
+            if sol is None:
+                # describe the first point where a greedy reading breaks down
+                k = 0
+                msg = "%d rows returned; " % nk
+                for i, r in enumerate(cands):
+                    if cap is not None and k == cap:
+                        break
+                    if matches(i, k):
+                        k += 1
+                    elif r["status"] == "inside":
+                        got = None if k >= nk else gen.decode(X[k].to(torch.int8), "ACGT")
+                        w_in = r["wins"][0]
+                        msg += "row %d should be locus %s mid %d windows %s: got %r want %r" % (
+                            k, r["chrom"], r["mid"], r["wins"], None if got is None else got[:30], chroms[r["chrom"]][w_in[0]:w_in[1]].upper()[:30])
+                        break
+                else:
+                    msg += "%d rows explained by the loci in order" % k
+                raise Violation("extract-rows-not-explained-by-loci", "%s (in=%d out=%d jitter=%d n_loci=%r): %s" % (tag, in_w, out_w, jit, cap, msg))
+            kept = [cands[i] for i in sol]
             results[files] = (outs, kept)
         a, b = results[True], results[False]
         if not isinstance(a, Exception) and not isinstance(b, Exception):
